@@ -70,7 +70,7 @@ theorem claim_rejected_not_bonded (ord : List Group → List Group) (vals : List
   unfold processClaim
   simp [hw, h]
 
-example : checkActive [⟨1, 10, false⟩] 1 = false ∧ checkActive [⟨1, 10, true⟩] 2 = false := by decide
+example : checkActive [⟨1, 10, false, false⟩] 1 = false ∧ checkActive [⟨1, 10, true, true⟩] 2 = false := by decide
 
 /-- A validator counts at most once per prophecy (1): a second claim by the same validator on a pending
     prophecy — same or different content — is rejected (`ErrDuplicateMessage`). -/
@@ -97,7 +97,7 @@ theorem wf_preserved (ord : List Group → List Group) (vals : List Validator) (
     (s : StatusText) (f : Content) (hwf : OStateWF st) (h : processClaim ord vals st c = .ok (st', s, f)) :
     OStateWF st' := processClaim_wf hwf h
 
-example : ∃ st' s f, processClaim id [⟨1, 10, true⟩] ⟨[1], [], none⟩ ⟨"a", 1, .eth 1 2 "x" 0 2, 0⟩ = .ok (st', s, f) :=
+example : ∃ st' s f, processClaim id [⟨1, 10, true, true⟩] ⟨[1], [], none⟩ ⟨"a", 1, .eth 1 2 "x" 0 2, 0⟩ = .ok (st', s, f) :=
   ⟨_, _, _, rfl⟩
 
 /-! ### the threshold -/
@@ -183,7 +183,7 @@ theorem success_needs_threshold (ord : List Group → List Group) (hord : ∀ l,
     · rw [hwl]; exact hineq.2
 
 /-- non-vacuity: validators of power 40, 30, 30, all whitelisted; 0 claimed before, 1 claims the same: SUCCESS -/
-example : ((processClaim id [⟨0, 40, true⟩, ⟨1, 30, true⟩, ⟨2, 30, true⟩]
+example : ((processClaim id [⟨0, 40, true, true⟩, ⟨1, 30, true, true⟩, ⟨2, 30, true, true⟩]
     ⟨[0, 1, 2], [⟨"a", .pending, .empty, [(.eth 1 2 "x" 0 2, [0])], [(0, .eth 1 2 "x" 0 2)]⟩], none⟩
     ⟨"a", 1, .eth 1 2 "x" 0 2, 0⟩).toOption.map (·.2)) = some (.success, .eth 1 2 "x" 0 2) := by decide
 
